@@ -83,7 +83,8 @@ void InterrogateBuilder::
 read_command_file(istream &in) {
   string line;
   std::getline(in, line);
-  while (!in.fail() && !in.eof()) {
+  // A last line that does not end in a newline sets eof but does not fail.
+  while (!in.fail()) {
     // Strip out the comment.
     size_t hash = line.find('#');
     if (hash != string::npos) {
